@@ -335,8 +335,9 @@ pub fn run(o: &mut Out, tier: &str, seed: u64) {
             o.stat(&format!("amount_de.{}.{}.{}", enc, shape, if r.starts_with("ok") { "ok" } else { "err" }));
         }
     } } }
-    // through a non-borrowing deserialiser (serde_json::from_reader): single amounts and options read the same; `as_xmr::vec`
-    // asks serde for a borrowed `&str` and so cannot read any element (oracle side: the amounts a plain reader returns)
+    // through a non-borrowing deserialiser (serde_json::from_reader): every path must read the same as through from_str.
+    // Regression test of a fixed defect: `as_xmr::vec` used to ask serde for a borrowed `&str` and so could not read any
+    // element here, nor an element written with a JSON escape (oracle side: the amounts a plain reader returns)
     for enc in ["as_pico", "as_xmr"] { for shape in ["plain", "opt", "vec"] { for ty in ["u", "s"] {
         let field = if shape == "vec" { "amounts" } else { "amount" };
         let v0 = if enc == "as_pico" { "7".to_string() } else { "\"0.7\"".to_string() };
